@@ -1,5 +1,7 @@
 """C02 — TR-31 unwrap rejects every unauthentic or tampered key block."""
-from core import Case
+import logging
+import re
+from core import Case, call_impl, enc_b, enc_s
 from props.tr31util import VERS, rb, rs, rand_blocks, make_header, split_block, unwrap_case, tr31, ALNUM, PRINTABLE, Session
 
 OBLIGATIONS = ["Psec.Props.C02.dispatch_ok_tag", "Psec.Props.C02.unwrap_sound", "Psec.Props.C02.fromHexWs_tight", "Psec.Props.C02.parse_injective", "Psec.Props.C02.kbpk_size_bound", "Psec.Props.C02.C02_full_of_no_forgery", "Psec.Props.C15.unwrapFn_errors", "Psec.Props.C02.genuine_triple", "Psec.Props.C02.same_triple_same_block", "Psec.Props.C02.accepted_genuine_or_forgery", "Psec.Props.C02.C02_full_of_no_mac_forgery"]
@@ -36,6 +38,71 @@ def check_verdict(c, r, s, G, hl, key, allow=False):
             c.fail("hex-case variant unwrapped to a different key")
     elif r.err != "tr31":
         c.fail(f"rejected with {r.err} instead of the module's own error")
+
+
+class _Capture(logging.Handler):
+    def __init__(self):
+        super().__init__(level=logging.DEBUG)
+        self.texts = []
+
+    def emit(self, record):
+        try:
+            self.texts.append(record.getMessage())
+        except Exception:  # noqa: BLE001
+            self.texts.append(str(record.msg))
+
+
+def oracle_probe(c, kbpk, s, G, ml):
+    """A rejection must not hand back what is needed to pass next time. Everything the rejected call lets out - the exception's
+    text, arguments and notes, its chain, and whatever it logs at any level - is searched for hex strings of the MAC's size;
+    each is put in the place of the MAC and the block offered again: it must still be rejected."""
+    cap = _Capture()
+    root = logging.getLogger()
+    old_level, old_disable = root.level, logging.root.manager.disable
+    loggers = [root] + [logging.getLogger(n) for n in list(logging.root.manager.loggerDict) if n.startswith("psec")]
+    saved = [(lg, lg.level) for lg in loggers]
+    texts = []
+    try:
+        logging.disable(logging.NOTSET)
+        for lg in loggers:
+            lg.setLevel(logging.DEBUG)
+        root.addHandler(cap)
+        try:
+            tr31.unwrap(kbpk, s)
+            return
+        except Exception as e:  # noqa: BLE001
+            seen = set()
+            while e is not None and id(e) not in seen:
+                seen.add(id(e))
+                texts += [str(e), repr(e.args)] + [str(n) for n in getattr(e, "__notes__", [])]
+                texts += [f"{k}={v!r}" for k, v in vars(e).items()] if hasattr(e, "__dict__") else []
+                e = e.__cause__ or e.__context__
+    finally:
+        root.removeHandler(cap)
+        for lg, lv in saved:
+            lg.setLevel(lv)
+        logging.disable(old_disable)
+    texts += cap.texts
+    cands = set()
+    for t in texts:
+        for m in re.finditer(r"(?<![0-9A-Fa-f])[0-9A-Fa-f]{%d}(?![0-9A-Fa-f])" % (2 * ml), t):
+            cands.add(m.group(0).upper())
+        for m in re.finditer(r"b'((?:\\x[0-9a-f]{2}|[ -~])+)'", t):     # bytes reprs
+            try:
+                b = eval("b'" + m.group(1) + "'")  # noqa: S307 - a bytes literal taken from a repr
+                if len(b) == ml:
+                    cands.add(b.hex().upper())
+            except Exception:  # noqa: BLE001
+                pass
+    for cand in cands:
+        s2 = s[:len(s) - 2 * ml] + cand
+        if s2 == s or (s2[:len(G)].upper() == G.upper() and len(s2) == len(G)):
+            continue
+        r2 = call_impl("tr31.unwrap", (kbpk, s2), stream="tr31")
+        if r2.ok:
+            c.fail("the rejection of a tampered block disclosed (in its exception text / notes / log output) a MAC that makes the tampered block pass when offered again")
+            c.calls.append({"fn": "tr31.unwrap", "args": [enc_b(kbpk), enc_s(s2)], "entropy": "", "stream": "tr31"})
+            return
 
 
 def generate(rng, tier, seed):
@@ -81,6 +148,8 @@ def generate(rng, tier, seed):
                         s = G[:pos] + ch + G[pos + 1:]
                         c = Case(f"{ver}:substitution", {"pos": pos, "section": "header" if pos < hl else "binary"})
                         check_verdict(c, unwrap_case(c, kbpk, s), s, G, hl, key)
+                        if pos < n - 2 * ml and rng.random() < 0.15:
+                            oracle_probe(c, kbpk, s, G, ml)
                         yield c
                 # insertions / deletions, with and without length fix-up
                 for pos in sorted(set([0, 5, 15, 16, hl, hl + 2, n - 2 * ml, n] + [rng.randrange(n + 1) for _ in range(3)])):
